@@ -4,7 +4,7 @@ from fractions import Fraction
 from sa import generic
 from sa.algebra import Rat, Poly, AlgebraError
 from sa.extract import straightline, single_assignments, inline, assignments_to, names_in
-from sa.srcmodel import own_nodes, dotted, positional_params
+from sa.srcmodel import func_params, own_nodes, dotted, positional_params
 from sa.tags import TagAnalysis, run_tags
 from sa.report import AnalysisError
 
@@ -35,6 +35,60 @@ def lagrange_at_zero(k, ys='ys', xs='xs'):
                 term = term * xj / (xj - xi)
         tot = tot + term
     return tot
+
+
+def inplace_on_params(fn):
+    """in-place operations on names that alias a parameter or an element unpacked / subscripted from one (flow-insensitive closure)"""
+    alias = set(func_params(fn))
+    changed = True
+    while changed:
+        changed = False
+        for n in own_nodes(fn):
+            if isinstance(n, ast.Assign):
+                v = n.value
+                src = None
+                if isinstance(v, ast.Name) and v.id in alias:
+                    src = v.id
+                elif isinstance(v, ast.Subscript) and isinstance(v.value, ast.Name) and v.value.id in alias:
+                    src = v.value.id
+                if src is None:
+                    continue
+                for t in n.targets:
+                    for x in ([t] if isinstance(t, ast.Name) else list(t.elts) if isinstance(t, (ast.Tuple, ast.List)) else []):
+                        if isinstance(x, ast.Name) and x.id not in alias:
+                            alias.add(x.id)
+                            changed = True
+            elif isinstance(n, ast.For):
+                if isinstance(n.iter, ast.Name) and n.iter.id in alias:
+                    for x in ast.walk(n.target):
+                        if isinstance(x, ast.Name) and x.id not in alias:
+                            alias.add(x.id)
+                            changed = True
+    # names that are re-bound to fresh values by a plain non-alias assignment are still treated as aliases (conservative
+    # only for names that ever aliased an input); the Lagrange handlers have no such re-binding
+    bad = []
+    for n in own_nodes(fn):
+        if isinstance(n, ast.AugAssign):
+            b = n.target
+            while isinstance(b, (ast.Subscript, ast.Attribute)):
+                b = b.value
+            if isinstance(b, ast.Name) and b.id in alias:
+                bad.append('`%s` (line %d) updates `%s` in place' % (ast.unparse(n)[:50], n.lineno, b.id))
+        elif isinstance(n, ast.Assign):
+            for t in n.targets:
+                if isinstance(t, ast.Subscript):
+                    b = t
+                    while isinstance(b, (ast.Subscript, ast.Attribute)):
+                        b = b.value
+                    if isinstance(b, ast.Name) and b.id in alias:
+                        bad.append('`%s` (line %d) stores into `%s`' % (ast.unparse(n)[:50], n.lineno, b.id))
+        elif isinstance(n, ast.Call):
+            for k_ in n.keywords:
+                if k_.arg == 'out' and isinstance(k_.value, ast.Name) and k_.value.id in alias:
+                    bad.append('`%s` (line %d) writes into `%s` through out=' % (ast.unparse(n)[:50], n.lineno, k_.value.id))
+            if isinstance(n.func, ast.Attribute) and n.func.attr in ('sort', 'fill', 'resize', 'put', 'itemset', 'partition') and isinstance(n.func.value, ast.Name) and n.func.value.id in alias:
+                bad.append('`%s` (line %d) is an in-place method on `%s`' % (ast.unparse(n)[:50], n.lineno, n.func.value.id))
+    return bad
 
 
 def find_dispatch(fn):
@@ -143,6 +197,11 @@ def run(rep, prog, tier):
         if ret is None:
             rep.ob('R-ALG', callee._qualname, False, 'handler returns nothing', callee._module.rel, callee.lineno, what='lagrange form')
             continue
+        # the handler must not update its inputs in place: the results it combines are used again afterwards (fallback test,
+        # best_result), and by contract they are arrays / spectra, for which `a *= w` writes into the caller's object
+        bad = inplace_on_params(callee)
+        rep.ob('R-PURE', callee._qualname, not bad, '; '.join(bad) if bad else 'no in-place operation on (aliases of) the inputs', callee._module.rel, callee.lineno,
+               what='the combined results are not modified')
         ref = lagrange_at_zero(k, params[0], params[1])
         ok = ret.equals(ref)
         rep.ob('R-ALG', callee._qualname, ok,
@@ -301,9 +360,21 @@ def run(rep, prog, tier):
         fp = prog.func('dadi.Spectrum_mod', q)
         sets = [n for n in own_nodes(fp) if isinstance(n, ast.Assign) and isinstance(n.targets[0], ast.Attribute)
                 and n.targets[0].attr == 'extrap_x']
+        params_ = set(func_params(fp))
+
+        def is_grid_list(e, depth=0):
+            """the list of grids itself: the parameter xxs, or a display / name bound only to displays of grid parameters"""
+            if isinstance(e, ast.Name):
+                if e.id in params_:
+                    return True
+                binds = [a.value for a in own_nodes(fp) if isinstance(a, ast.Assign) and any(isinstance(t, ast.Name) and t.id == e.id for t in a.targets)]
+                return bool(binds) and depth < 3 and all(is_grid_list(b, depth + 1) for b in binds)
+            if isinstance(e, (ast.Tuple, ast.List)):
+                return all(isinstance(x, ast.Name) and x.id in params_ for x in e.elts)
+            return False
         ok = bool(sets) and all(isinstance(n.value, ast.Subscript) and isinstance(n.value.slice, ast.Constant) and n.value.slice.value == 1
                                 and isinstance(n.value.value, ast.Subscript) and isinstance(n.value.value.slice, ast.Constant)
-                                and n.value.value.slice.value == 0 for n in sets)
+                                and n.value.value.slice.value == 0 and is_grid_list(n.value.value.value) for n in sets)
         rep.ob('R-FLOW', '%s extrap_x' % q, ok, 'extrap_x = first interior point of the first grid: %s'
                % '; '.join(ast.unparse(n) for n in sets), sm.rel, sets[0].lineno if sets else fp.lineno, what='extrap_x recorded')
     rep.floor('R-ALG', 6)
